@@ -10,164 +10,164 @@ namespace ScionTime.Model.Skel
 
 /-- core/client, IPClient.measureClockOffsetIP -/
 def Client.IPClient_measureClockOffsetIP : List Row := [
-  (0, "func (c *IPClient) measureClockOffsetIP(ctx context.Context, mtrcs *ipClientMetrics, localAddr, remoteAddr *net.UDPAddr) ( timestamp time.Time, offset time.Duration, err error)"),  -- ?
-  (1, "laddr, ok := netip.AddrFromSlice(localAddr.IP)"),  -- ?
-  (1, "if !ok"),  -- ?
-  (2, "return time.Time{}, 0, errUnexpectedAddrType"),  -- ?
-  (1, "var lc net.ListenConfig"),  -- ?
-  (1, "pconn, err := lc.ListenPacket(ctx, \"udp\", netip.AddrPortFrom(laddr, 0).String())"),  -- ?
-  (1, "if err != nil"),  -- ?
-  (2, "return time.Time{}, 0, err"),  -- ?
-  (1, "conn := pconn.(*net.UDPConn)"),  -- ?
-  (1, "defer conn.Close()"),  -- ?
-  (1, "deadline, deadlineIsSet := ctx.Deadline()"),  -- ?
-  (1, "if deadlineIsSet"),  -- ?
-  (2, "err = conn.SetDeadline(deadline)"),  -- ?
-  (2, "if err != nil"),  -- ?
-  (3, "return time.Time{}, 0, err"),  -- ?
-  (1, "err = udp.EnableTimestamping(conn, localAddr.Zone)"),  -- ?
-  (1, "if err != nil"),  -- ?
-  (1, "err = udp.SetDSCP(conn, c.DSCP)"),  -- ?
-  (1, "if err != nil"),  -- ?
-  (1, "var ntskeData ntske.Data"),  -- ?
-  (1, "if c.Auth.Enabled"),  -- ?
-  (2, "ntskeData, err = c.Auth.NTSKEFetcher.FetchData(ctx)"),  -- ?
-  (2, "if err != nil"),  -- ?
-  (3, "return time.Time{}, 0, err"),  -- ?
-  (2, "remoteAddr.IP = net.ParseIP(ntskeData.Server)"),  -- ?
-  (2, "remoteAddr.Port = int(ntskeData.Port)"),  -- ?
-  (1, "ip4 := remoteAddr.IP.To4()"),  -- ?
-  (1, "if ip4 != nil"),  -- ?
-  (2, "remoteAddr.IP = ip4"),  -- ?
-  (1, "buf := make([]byte, ntp.PacketLen)"),  -- ?
-  (1, "reference := remoteAddr.String()"),  -- ?
-  (1, "cTxTime0 := timebase.Now()"),  -- ?
-  (1, "interleavedReq := false"),  -- ?
-  (1, "ntpreq := ntp.Packet{}"),  -- ?
-  (1, "ntpreq.SetVersion(ntp.VersionMax)"),  -- ?
-  (1, "ntpreq.SetMode(ntp.ModeClient)"),  -- ?
-  (1, "if c.InterleavedMode && reference == c.prev.reference && cTxTime0.Sub(ntp.TimeFromTime64(c.prev.cTxTime, cTxTime0)) <= 3*time.Second"),  -- ?
-  (2, "interleavedReq = true"),  -- ?
-  (2, "ntpreq.OriginTime = c.prev.sRxTime"),  -- ?
-  (2, "ntpreq.ReceiveTime = c.prev.cRxTime"),  -- ?
-  (2, "ntpreq.TransmitTime = c.prev.cTxTime"),  -- ?
-  (1, "else"),  -- ?
-  (2, "ntpreq.TransmitTime = ntp.Time64FromTime(cTxTime0)"),  -- ?
-  (1, "ntp.EncodePacket(&buf, &ntpreq)"),  -- ?
-  (1, "var requestID []byte"),  -- ?
-  (1, "var ntsreq nts.Packet"),  -- ?
-  (1, "if c.Auth.Enabled"),  -- ?
-  (2, "ntsreq, requestID = nts.NewRequestPacket(ntskeData)"),  -- ?
-  (2, "nts.EncodePacket(&buf, &ntsreq)"),  -- ?
-  (1, "n, err := conn.WriteToUDPAddrPort(buf, remoteAddr.AddrPort())"),  -- ?
-  (1, "if err != nil"),  -- ?
-  (2, "return time.Time{}, 0, err"),  -- ?
-  (1, "if n != len(buf)"),  -- ?
-  (2, "return time.Time{}, 0, errWrite"),  -- ?
-  (1, "cTxTime1, id, err := udp.ReadTXTimestamp(conn)"),  -- ?
-  (1, "if err != nil || id != 0"),  -- ?
-  (2, "cTxTime1 = timebase.Now()"),  -- ?
-  (1, "if interleavedReq"),  -- ?
-  (1, "const maxNumRetries = 1"),  -- ?
-  (1, "numRetries := 0"),  -- ?
-  (1, "oob := make([]byte, udp.TimestampLen())"),  -- ?
-  (1, "for"),  -- ?
-  (2, "buf = buf[:cap(buf)]"),  -- ?
-  (2, "oob = oob[:cap(oob)]"),  -- ?
-  (2, "n, oobn, flags, srcAddr, err := conn.ReadMsgUDPAddrPort(buf, oob)"),  -- ?
-  (2, "if err != nil"),  -- ?
-  (3, "if numRetries != maxNumRetries && deadlineIsSet && timebase.Now().Before(deadline)"),  -- ?
-  (4, "numRetries++"),  -- ?
-  (4, "continue"),  -- ?
-  (3, "return time.Time{}, 0, err"),  -- ?
-  (2, "if flags != 0"),  -- ?
-  (3, "err = errUnexpectedPacketFlags"),  -- ?
-  (3, "if numRetries != maxNumRetries && deadlineIsSet && timebase.Now().Before(deadline)"),  -- ?
-  (4, "numRetries++"),  -- ?
-  (4, "continue"),  -- ?
-  (3, "return time.Time{}, 0, err"),  -- ?
-  (2, "oob = oob[:oobn]"),  -- ?
-  (2, "cRxTime, err := udp.TimestampFromOOBData(oob)"),  -- ?
-  (2, "if err != nil"),  -- ?
-  (3, "cRxTime = timebase.Now()"),  -- ?
-  (2, "buf = buf[:n]"),  -- ?
-  (2, "if compareAddrs(srcAddr.Addr(), remoteAddr.AddrPort().Addr()) != 0"),  -- ?
-  (3, "err = errUnexpectedPacketSource"),  -- ?
-  (3, "if numRetries != maxNumRetries && deadlineIsSet && timebase.Now().Before(deadline)"),  -- ?
-  (4, "numRetries++"),  -- ?
-  (4, "continue"),  -- ?
-  (3, "return time.Time{}, 0, err"),  -- ?
-  (2, "var ntpresp ntp.Packet"),  -- ?
-  (2, "err = ntp.DecodePacket(&ntpresp, buf)"),  -- ?
-  (2, "if err != nil"),  -- ?
-  (3, "if numRetries != maxNumRetries && deadlineIsSet && timebase.Now().Before(deadline)"),  -- ?
-  (4, "numRetries++"),  -- ?
-  (4, "continue"),  -- ?
-  (3, "return time.Time{}, 0, err"),  -- ?
-  (2, "authenticated := false"),  -- ?
-  (2, "var ntsresp nts.Packet"),  -- ?
-  (2, "if c.Auth.Enabled"),  -- ?
-  (3, "err = nts.DecodePacket(&ntsresp, buf)"),  -- ?
-  (3, "if err != nil"),  -- ?
-  (4, "if numRetries != maxNumRetries && deadlineIsSet && timebase.Now().Before(deadline)"),  -- ?
-  (5, "numRetries++"),  -- ?
-  (5, "continue"),  -- ?
-  (4, "return time.Time{}, 0, err"),  -- ?
-  (3, "err = nts.ProcessResponse(buf, ntskeData.S2cKey, &c.Auth.NTSKEFetcher, &ntsresp, requestID)"),  -- ?
-  (3, "if err != nil"),  -- ?
-  (4, "if numRetries != maxNumRetries && deadlineIsSet && timebase.Now().Before(deadline)"),  -- ?
-  (5, "numRetries++"),  -- ?
-  (5, "continue"),  -- ?
-  (4, "return time.Time{}, 0, err"),  -- ?
-  (3, "authenticated = true"),  -- ?
-  (2, "interleavedResp := false"),  -- ?
-  (2, "if interleavedReq && ntpresp.OriginTime == ntpreq.ReceiveTime"),  -- ?
-  (3, "interleavedResp = true"),  -- ?
-  (2, "else if ntpresp.OriginTime != ntpreq.TransmitTime"),  -- ?
-  (3, "err = errUnexpectedPacket"),  -- ?
-  (3, "if numRetries != maxNumRetries && deadlineIsSet && timebase.Now().Before(deadline)"),  -- ?
-  (4, "numRetries++"),  -- ?
-  (4, "continue"),  -- ?
-  (3, "return time.Time{}, 0, err"),  -- ?
-  (2, "err = ntp.ValidateResponseMetadata(&ntpresp)"),  -- ?
-  (2, "if err != nil"),  -- ?
-  (3, "return time.Time{}, 0, err"),  -- ?
-  (2, "sRxTime := ntp.TimeFromTime64(ntpresp.ReceiveTime, cTxTime0)"),  -- ?
-  (2, "sTxTime := ntp.TimeFromTime64(ntpresp.TransmitTime, cTxTime0)"),  -- ?
-  (2, "var t0, t1, t2, t3 time.Time"),  -- ?
-  (2, "if interleavedResp"),  -- ?
-  (3, "t0 = ntp.TimeFromTime64(c.prev.cTxTime, cTxTime0)"),  -- ?
-  (3, "t1 = ntp.TimeFromTime64(c.prev.sRxTime, cTxTime0)"),  -- ?
-  (3, "t2 = sTxTime"),  -- ?
-  (3, "t3 = ntp.TimeFromTime64(c.prev.cRxTime, cTxTime0)"),  -- ?
-  (2, "else"),  -- ?
-  (3, "t0 = cTxTime1"),  -- ?
-  (3, "t1 = sRxTime"),  -- ?
-  (3, "t2 = sTxTime"),  -- ?
-  (3, "t3 = cRxTime"),  -- ?
-  (2, "err = ntp.ValidateResponseTimestamps(t0, t1, t2, t3)"),  -- ?
-  (2, "if err != nil"),  -- ?
-  (3, "return time.Time{}, 0, err"),  -- ?
-  (2, "off := ntp.ClockOffset(t0, t1, t2, t3)"),  -- ?
-  (2, "rtd := ntp.RoundTripDelay(t0, t1, t2, t3)"),  -- ?
-  (2, "if interleavedResp"),  -- ?
-  (2, "if c.InterleavedMode"),  -- ?
-  (3, "c.prev.reference = reference"),  -- ?
-  (3, "c.prev.interleaved = interleavedResp"),  -- ?
-  (3, "c.prev.cTxTime = ntp.Time64FromTime(cTxTime1)"),  -- ?
-  (3, "c.prev.cRxTime = ntp.Time64FromTime(cRxTime)"),  -- ?
-  (3, "c.prev.sRxTime = ntpresp.ReceiveTime"),  -- ?
-  (2, "timestamp = cRxTime"),  -- ?
-  (2, "if c.Filter == nil"),  -- ?
-  (3, "offset = off"),  -- ?
-  (2, "else"),  -- ?
-  (3, "offset = c.Filter.Do(t0, t1, t2, t3)"),  -- ?
-  (2, "if c.Histogram != nil"),  -- ?
-  (3, "err := c.Histogram.RecordValue(rtd.Microseconds())"),  -- ?
-  (3, "if err != nil"),  -- ?
-  (4, "return time.Time{}, 0, err"),  -- ?
-  (2, "break"),  -- ?
-  (1, "return timestamp, offset, nil")  -- ?
+  (0, "func (c *IPClient) measureClockOffsetIP(ctx context.Context, mtrcs *ipClientMetrics, localAddr, remoteAddr *net.UDPAddr) ( timestamp time.Time, offset time.Duration, err error)"),  -- ClientNtp.exchangeIP: one whole exchange from the request on (entry: ClientNtp.entry); harness c03 ops cli.req, cli.exch
+  (1, "laddr, ok := netip.AddrFromSlice(localAddr.IP)"),  -- ClientNtp.localAddrOk: iplen == 4 || iplen == 16 (argument of ClientNtp.entry)
+  (1, "if !ok"),  -- ClientNtp.entry: if localAddrOk iplen then .proceed else .errAddr (entryOld = code before F13 fix); harness c03 op cli.badlocal
+  (2, "return time.Time{}, 0, errUnexpectedAddrType"),  -- ClientNtp.entry: | .errAddr (C05_entry_no_success_without_datagram; entryOld .successZeroOld was F13)
+  (1, "var lc net.ListenConfig"),  -- env: variable declaration (net.ListenConfig zero value)
+  (1, "pconn, err := lc.ListenPacket(ctx, \"udp\", netip.AddrPortFrom(laddr, 0).String())"),  -- env: fresh UDP socket per exchange (model header: one exchange = one fresh socket); port 0 = kernel-chosen
+  (1, "if err != nil"),  -- env: socket set-up failed; result enters only as ClientNtp.ErrKind.other
+  (2, "return time.Time{}, 0, err"),  -- ClientNtp.ErrKind.other: return before the receive loop (listen); no def produces it, enters wrapLoop as Attempt.err
+  (1, "conn := pconn.(*net.UDPConn)"),  -- env: type assertion on the socket just created
+  (1, "defer conn.Close()"),  -- env: defer conn.Close()
+  (1, "deadline, deadlineIsSet := ctx.Deadline()"),  -- ClientNtp.Cfg.deadlineSet: deadlineIsSet (deadline value itself enters via Event beforeDeadline flags)
+  (1, "if deadlineIsSet"),  -- ClientNtp.Cfg.deadlineSet: true branch
+  (2, "err = conn.SetDeadline(deadline)"),  -- env: socket deadline; its expiry enters the model as ClientNtp.Event.readErr
+  (2, "if err != nil"),  -- env: SetDeadline failed; result enters only as ClientNtp.ErrKind.other
+  (3, "return time.Time{}, 0, err"),  -- ClientNtp.ErrKind.other: return before the receive loop (deadline); no def produces it
+  (1, "err = udp.EnableTimestamping(conn, localAddr.Zone)"),  -- env: kernel timestamping set-up; its effect enters as inputs cTx1 / Event.dgram cRx of ClientNtp.exchangeIP
+  (1, "if err != nil"),  -- env: error only logged (body dropped); exchange goes on with clock-reading fallbacks for cTx1 / cRx
+  (1, "err = udp.SetDSCP(conn, c.DSCP)"),  -- env: socket option IP_TOS from c.DSCP (MainCfg.dscp validates the value; the setsockopt is outside every model)
+  (1, "if err != nil"),  -- env: error only logged (body dropped)
+  (1, "var ntskeData ntske.Data"),  -- env: variable declaration (ntske.Data zero value)
+  (1, "if c.Auth.Enabled"),  -- ClientNtp.Cfg.nts: Auth.Enabled (IP)
+  (2, "ntskeData, err = c.Auth.NTSKEFetcher.FetchData(ctx)"),  -- Ntske.fetchWith / NtsPool.fetchData: hand out a copy of the data, pop one cookie (re-key iff pool empty); NtsPool.request
+  (2, "if err != nil"),  -- Ntske.fetchWith: | (c, some err) => .error err; NtsPool.request: | none => .err .noCookies
+  (3, "return time.Time{}, 0, err"),  -- ClientNtp.ErrKind.other: return before the receive loop (key exchange); NtsPool.request returns .err, nothing sent
+  (2, "remoteAddr.IP = net.ParseIP(ntskeData.Server)"),  -- ClientNtp.ntsDestination: parsed = net.ParseIP(ntskeData.Server) (oracle input), held overwritten; harness c03 op cli.ntsdest
+  (2, "remoteAddr.Port = int(ntskeData.Port)"),  -- ClientNtp.ntsDestination: port := ntskeData.Port (C20_nts_request_destination)
+  (1, "ip4 := remoteAddr.IP.To4()"),  -- ClientNtp.ntsDestination: unmapIP ip (with NTS); without NTS: server : Nat of classifyIP is the address after Unmap
+  (1, "if ip4 != nil"),  -- ClientNtp.unmapIP: 4-byte form exists
+  (2, "remoteAddr.IP = ip4"),  -- ClientNtp.ntsDestination: (unmapIP ip).map ... the 4-byte form is what the request goes to / what reference prints
+  (1, "buf := make([]byte, ntp.PacketLen)"),  -- env: buffer allocation (length ntp.PacketLen: pin C05_pin_packetLen)
+  (1, "reference := remoteAddr.String()"),  -- ClientNtp.mkRequest: argument reference (= remoteAddr.String(), after the NTS overwrite and To4)
+  (1, "cTxTime0 := timebase.Now()"),  -- ClientNtp.mkRequest: argument now (cTxTime0); stored as Req.cTx0
+  (1, "interleavedReq := false"),  -- ClientNtp.mkRequest: Req.interleaved := false (else branch default)
+  (1, "ntpreq := ntp.Packet{}"),  -- NtpPacket.zeroPacket; ClientNtp.mkRequest: origin/rx := zero64 in the basic request
+  (1, "ntpreq.SetVersion(ntp.VersionMax)"),  -- ClientNtp.requestLVM: 4 * 8 (NtpPacket.setVersion; pin C05_pin_modeClient_versionMax)
+  (1, "ntpreq.SetMode(ntp.ModeClient)"),  -- ClientNtp.requestLVM: + 3 (NtpPacket.setMode; pin C05_pin_modeClient_versionMax)
+  (1, "if c.InterleavedMode && reference == c.prev.reference && cTxTime0.Sub(ntp.TimeFromTime64(c.prev.cTxTime, cTxTime0)) <= 3*time.Second"),  -- ClientNtp.mkRequest: interleavedMode && reference == prev.reference && windowOk .ip (<= 3 s; pins C03_pin_window*)
+  (2, "interleavedReq = true"),  -- ClientNtp.mkRequest: interleaved := true
+  (2, "ntpreq.OriginTime = c.prev.sRxTime"),  -- ClientNtp.mkRequest: origin := prev.sRx
+  (2, "ntpreq.ReceiveTime = c.prev.cRxTime"),  -- ClientNtp.mkRequest: rx := prev.cRx
+  (2, "ntpreq.TransmitTime = c.prev.cTxTime"),  -- ClientNtp.mkRequest: tx := prev.cTx
+  (1, "else"),  -- ClientNtp.mkRequest: else
+  (2, "ntpreq.TransmitTime = ntp.Time64FromTime(cTxTime0)"),  -- ClientNtp.mkRequest: tx := ofTime now (Time64.ofTime)
+  (1, "ntp.EncodePacket(&buf, &ntpreq)"),  -- NtpPacket.encodePacket: the 48 header bytes (ClientNtp keeps only Req origin/rx/tx + requestLVM); harness c03 op cli.req
+  (1, "var requestID []byte"),  -- env: variable declaration (requestID; NtsPool.Client.reqId)
+  (1, "var ntsreq nts.Packet"),  -- env: variable declaration (ntsreq)
+  (1, "if c.Auth.Enabled"),  -- ClientNtp.Cfg.nts; NtsPool.request: NTS part of the request
+  (2, "ntsreq, requestID = nts.NewRequestPacket(ntskeData)"),  -- Nts.newRequestPacket: Cookie[0], capped placeholders, uid := copyN 32 rnd; NtsPool.request: reqId := uid; harness c03 op cl.exch
+  (2, "nts.EncodePacket(&buf, &ntsreq)"),  -- Nts.encodePacket (encodePacketG true): uid, cookie, placeholders, authenticator appended to hdr; NtsPool.request
+  (1, "n, err := conn.WriteToUDPAddrPort(buf, remoteAddr.AddrPort())"),  -- env: send; the datagram is the output of NtsPool.request / Req; destination = ClientNtp.ntsDestination (cli.ntsdest)
+  (1, "if err != nil"),  -- ClientNtp.ntsDestination: = none => this write fails (address without IP), no datagram leaves
+  (2, "return time.Time{}, 0, err"),  -- ClientNtp.ErrKind.other: return before the receive loop (write); cookie already popped (NtsPool.request st')
+  (1, "if n != len(buf)"),  -- env: kernel short write (a UDP send is all-or-error); no model has the branch, would be ErrKind.other
+  (2, "return time.Time{}, 0, errWrite"),  -- ClientNtp.ErrKind.other: return before the receive loop (write, errWrite); no def produces it
+  (1, "cTxTime1, id, err := udp.ReadTXTimestamp(conn)"),  -- env: kernel TX timestamp from the error queue; result enters as argument cTx1 of ClientNtp.exchangeIP / classifyIP
+  (1, "if err != nil || id != 0"),  -- env: fallback decision for cTx1 (err or id != 0; fresh socket so id is 0); model takes cTx1 as given
+  (2, "cTxTime1 = timebase.Now()"),  -- env: clock reading replaces the kernel stamp: still input cTx1 (monotonic-reading Sub is outside NtpMath.sub64, notes/C03)
+  (1, "if interleavedReq"),  -- env: metric only (reqsSentInterleaved.Inc dropped); no behaviour
+  (1, "const maxNumRetries = 1"),  -- ClientNtp.maxNumRetries / NtsPool.maxNumRetries: 1 (pins C05_pin_maxNumRetries, C11_pin_maxNumRetries; x_c03.go)
+  (1, "numRetries := 0"),  -- ClientNtp.exchangeIP: runLoop ... cfg.deadlineSet 0 0 evs (numRetries = 0); NtsPool.exchange: budget maxNumRetries + 1
+  (1, "oob := make([]byte, udp.TimestampLen())"),  -- env: buffer allocation (oob)
+  (1, "for"),  -- ClientNtp.runLoop: the receive loop over List (Event IpDgram); NtsPool.recvLoop for the NTS stage
+  (2, "buf = buf[:cap(buf)]"),  -- env: buffer reslice to capacity (48 without NTS, 1024 after nts.EncodePacket); longer datagram => MSG_TRUNC => Event.badFlags
+  (2, "oob = oob[:cap(oob)]"),  -- env: buffer reslice (oob)
+  (2, "n, oobn, flags, srcAddr, err := conn.ReadMsgUDPAddrPort(buf, oob)"),  -- ClientNtp.Event: what the socket delivers to one iteration (dgram / readErr / badFlags) is the model's input
+  (2, "if err != nil"),  -- ClientNtp.runLoop: | .readErr b :: rest
+  (3, "if numRetries != maxNumRetries && deadlineIsSet && timebase.Now().Before(deadline)"),  -- ClientNtp.mayRetry: numRetries != maxNumRetries && deadlineSet && before (before = flag b of Event.readErr)
+  (4, "numRetries++"),  -- ClientNtp.runLoop: r + 1
+  (4, "continue"),  -- ClientNtp.runLoop: recursive call on rest (n + 1)
+  (3, "return time.Time{}, 0, err"),  -- ClientNtp.runLoop: else .error .read (n + 1)
+  (2, "if flags != 0"),  -- ClientNtp.runLoop: | .badFlags b :: rest
+  (3, "err = errUnexpectedPacketFlags"),  -- ClientNtp.ErrKind.flags
+  (3, "if numRetries != maxNumRetries && deadlineIsSet && timebase.Now().Before(deadline)"),  -- ClientNtp.mayRetry: flag b of Event.badFlags
+  (4, "numRetries++"),  -- ClientNtp.runLoop: r + 1
+  (4, "continue"),  -- ClientNtp.runLoop: recursive call on rest
+  (3, "return time.Time{}, 0, err"),  -- ClientNtp.runLoop: else .error .flags (n + 1)
+  (2, "oob = oob[:oobn]"),  -- env: buffer reslice (oob to oobn); input of Udp.timestampFromOOBData
+  (2, "cRxTime, err := udp.TimestampFromOOBData(oob)"),  -- Udp.timestampFromOOBData (walkGen true): cmsg walk; its result enters ClientNtp as Event.dgram cRx
+  (2, "if err != nil"),  -- Udp.Outcome: errNotFound / errUnexpectedData; ClientNtp.Event.dgram: cRx = kernel stamp or the clock reading that replaces it
+  (3, "cRxTime = timebase.Now()"),  -- ClientNtp.Event.dgram: cRx := clock reading that replaces the kernel stamp (input)
+  (2, "buf = buf[:n]"),  -- ClientNtp.Payload.len: n
+  (2, "if compareAddrs(srcAddr.Addr(), remoteAddr.AddrPort().Addr()) != 0"),  -- ClientNtp.classifyIP: d.src != server (both after Unmap; ports not compared)
+  (3, "err = errUnexpectedPacketSource"),  -- ClientNtp.classifyIP: .skip .source
+  (3, "if numRetries != maxNumRetries && deadlineIsSet && timebase.Now().Before(deadline)"),  -- ClientNtp.runLoop: | .skip e => mayRetry r deadlineSet b (b of Event.dgram)
+  (4, "numRetries++"),  -- ClientNtp.runLoop: r + 1
+  (4, "continue"),  -- ClientNtp.runLoop: recursive call on rest
+  (3, "return time.Time{}, 0, err"),  -- ClientNtp.runLoop: else .error e (n + 1), e = .source
+  (2, "var ntpresp ntp.Packet"),  -- env: variable declaration, fresh per iteration (ClientNtp.Payload.pkt : NtpPkt)
+  (2, "err = ntp.DecodePacket(&ntpresp, buf)"),  -- NtpPacket.decodePacket: size error below 48, else the 48 header bytes; ClientNtp.ntpStage: p.len < 48, Payload.pkt
+  (2, "if err != nil"),  -- ClientNtp.ntpStage: if p.len < 48 then .skip .size
+  (3, "if numRetries != maxNumRetries && deadlineIsSet && timebase.Now().Before(deadline)"),  -- ClientNtp.runLoop: | .skip e => mayRetry
+  (4, "numRetries++"),  -- ClientNtp.runLoop: r + 1
+  (4, "continue"),  -- ClientNtp.runLoop: recursive call on rest
+  (3, "return time.Time{}, 0, err"),  -- ClientNtp.runLoop: else .error e (n + 1), e = .size
+  (2, "authenticated := false"),  -- env: variable used by the dropped log statement only
+  (2, "var ntsresp nts.Packet"),  -- pin C11_pin_recvLoopPacketScope (x_c11.go: ntsRespPacketScopeIP = loop): fresh packet per datagram, as NtsPool.response
+  (2, "if c.Auth.Enabled"),  -- ClientNtp.ntpStage: cfg.nts && ...; NtsPool.recvLoop: NTS stage of the iteration
+  (3, "err = nts.DecodePacket(&ntsresp, buf)"),  -- Nts.decodePacket in NtsPool.response; ClientNtp.Payload.ntsDecodeOk (oracle verdict); harness c03 op cl.exch
+  (3, "if err != nil"),  -- ClientNtp.ntpStage: cfg.nts && !p.ntsDecodeOk => .skip .ntsDecode; NtsPool.response: | .err e => (st, .err e)
+  (4, "if numRetries != maxNumRetries && deadlineIsSet && timebase.Now().Before(deadline)"),  -- ClientNtp.runLoop: | .skip e => mayRetry; NtsPool.recvLoop: | (st', .err _) => recvLoop A n st' rest (budget)
+  (5, "numRetries++"),  -- ClientNtp.runLoop: r + 1; NtsPool.recvLoop: budget n + 1 -> n
+  (5, "continue"),  -- ClientNtp.runLoop: recursive call on rest; NtsPool.recvLoop: recursive call
+  (4, "return time.Time{}, 0, err"),  -- ClientNtp.runLoop: else .error e (n + 1), e = .ntsDecode; NtsPool.recvLoop: | 0 => (st, .ok false)
+  (3, "err = nts.ProcessResponse(buf, ntskeData.S2cKey, &c.Auth.NTSKEFetcher, &ntsresp, requestID)"),  -- Nts.processResponse + NtsPool.response: pool := cs.foldl storeCookie; ClientNtp.Payload.ntsUidEq / ntsOpenOk (verdicts)
+  (3, "if err != nil"),  -- ClientNtp.ntpStage: cfg.nts && !(ntsUidEq && ntsOpenOk) => .skip .ntsProcess; NtsPool.response: | .err e => (st, .err e)
+  (4, "if numRetries != maxNumRetries && deadlineIsSet && timebase.Now().Before(deadline)"),  -- ClientNtp.runLoop: | .skip e => mayRetry; NtsPool.recvLoop: | (st', .err _)
+  (5, "numRetries++"),  -- ClientNtp.runLoop: r + 1; NtsPool.recvLoop: budget n + 1 -> n
+  (5, "continue"),  -- ClientNtp.runLoop: recursive call on rest; NtsPool.recvLoop: recursive call
+  (4, "return time.Time{}, 0, err"),  -- ClientNtp.runLoop: else .error e (n + 1), e = .ntsProcess
+  (3, "authenticated = true"),  -- env: variable used by the dropped log statement only (pktsAuthenticated metric dropped); NtsPool.recvLoop: .ok true
+  (2, "interleavedResp := false"),  -- ClientNtp.ntpStage: let il := ... (false unless both conjuncts)
+  (2, "if interleavedReq && ntpresp.OriginTime == ntpreq.ReceiveTime"),  -- ClientNtp.ntpStage: il := req.interleaved && p.pkt.origin == req.rx
+  (3, "interleavedResp = true"),  -- ClientNtp.ntpStage: il = true (Accepted.il)
+  (2, "else if ntpresp.OriginTime != ntpreq.TransmitTime"),  -- ClientNtp.ntpStage: if !il && p.pkt.origin != req.tx
+  (3, "err = errUnexpectedPacket"),  -- ClientNtp.ntpStage: .skip .unexpected
+  (3, "if numRetries != maxNumRetries && deadlineIsSet && timebase.Now().Before(deadline)"),  -- ClientNtp.runLoop: | .skip e => mayRetry r deadlineSet b
+  (4, "numRetries++"),  -- ClientNtp.runLoop: r + 1
+  (4, "continue"),  -- ClientNtp.runLoop: recursion; PARTIAL: NtsPool.recvLoop ends at the 1st authenticated dgram, no 2nd StoreCookie round
+  (3, "return time.Time{}, 0, err"),  -- ClientNtp.runLoop: else .error e (n + 1), e = .unexpected
+  (2, "err = ntp.ValidateResponseMetadata(&ntpresp)"),  -- NtpMath.validMetadata: LI != 3, version 3|4, mode 4, stratum 1..15 (pins C05_pin_modeServer, C05_pin_leapUnknown)
+  (2, "if err != nil"),  -- ClientNtp.ntpStage: else if !validMetadata p.pkt.lvm p.pkt.stratum
+  (3, "return time.Time{}, 0, err"),  -- ClientNtp.ntpStage: .fatal .response; runLoop: | .fatal e => .error e (n + 1), no retry
+  (2, "sRxTime := ntp.TimeFromTime64(ntpresp.ReceiveTime, cTxTime0)"),  -- ClientNtp.ntpStage: sRx := toTime p.pkt.rx req.cTx0 (Time64.toTime)
+  (2, "sTxTime := ntp.TimeFromTime64(ntpresp.TransmitTime, cTxTime0)"),  -- ClientNtp.ntpStage: sTx := toTime p.pkt.tx req.cTx0
+  (2, "var t0, t1, t2, t3 time.Time"),  -- env: variable declaration
+  (2, "if interleavedResp"),  -- ClientNtp.ntpStage: if il (in each of t0, t1, t3)
+  (3, "t0 = ntp.TimeFromTime64(c.prev.cTxTime, cTxTime0)"),  -- ClientNtp.ntpStage: t0 := toTime prev.cTx req.cTx0
+  (3, "t1 = ntp.TimeFromTime64(c.prev.sRxTime, cTxTime0)"),  -- ClientNtp.ntpStage: t1 := toTime prev.sRx req.cTx0
+  (3, "t2 = sTxTime"),  -- ClientNtp.ntpStage: t2 := sTx
+  (3, "t3 = ntp.TimeFromTime64(c.prev.cRxTime, cTxTime0)"),  -- ClientNtp.ntpStage: t3 := toTime prev.cRx req.cTx0
+  (2, "else"),  -- ClientNtp.ntpStage: else (in each of t0, t1, t3)
+  (3, "t0 = cTxTime1"),  -- ClientNtp.ntpStage: t0 := cTx1
+  (3, "t1 = sRxTime"),  -- ClientNtp.ntpStage: t1 := sRx
+  (3, "t2 = sTxTime"),  -- ClientNtp.ntpStage: t2 := sTx
+  (3, "t3 = cRxTime"),  -- ClientNtp.ntpStage: t3 := cRx
+  (2, "err = ntp.ValidateResponseTimestamps(t0, t1, t2, t3)"),  -- NtpMath.validateTimestamps: sub64 t3 t0 < 0 => .panic, sub64 t2 t1 < 0 => .errResponse, else .ok
+  (2, "if err != nil"),  -- ClientNtp.ntpStage: match validateTimestamps: | .errResponse (| .panic => Step.panic; runLoop .panic (n + 1))
+  (3, "return time.Time{}, 0, err"),  -- ClientNtp.ntpStage: .fatal .response; runLoop: | .fatal e => .error e (n + 1)
+  (2, "off := ntp.ClockOffset(t0, t1, t2, t3)"),  -- ClientNtp.Accepted.offset: clockOffset64 t0 t1 t2 t3 (NtpMath.clockOffset64)
+  (2, "rtd := ntp.RoundTripDelay(t0, t1, t2, t3)"),  -- ClientNtp.Accepted.rtd: roundTripDelay64 t0 t1 t2 t3 (NtpMath.roundTripDelay64; feeds only log and histogram)
+  (2, "if interleavedResp"),  -- env: metric only (respsAcceptedInterleaved.Inc dropped); no behaviour
+  (2, "if c.InterleavedMode"),  -- ClientNtp.updatePrev: if cfg.interleavedMode (else prev)
+  (3, "c.prev.reference = reference"),  -- ClientNtp.updatePrev: reference := reference
+  (3, "c.prev.interleaved = interleavedResp"),  -- ClientNtp.updatePrev: interleaved := a.il
+  (3, "c.prev.cTxTime = ntp.Time64FromTime(cTxTime1)"),  -- ClientNtp.updatePrev: cTx := ofTime cTx1
+  (3, "c.prev.cRxTime = ntp.Time64FromTime(cRxTime)"),  -- ClientNtp.updatePrev: cRx := ofTime a.cRx
+  (3, "c.prev.sRxTime = ntpresp.ReceiveTime"),  -- ClientNtp.updatePrev: sRx := a.sRx64 (= p.pkt.rx)
+  (2, "timestamp = cRxTime"),  -- ClientNtp.Accepted.cRx: the receive time that becomes timestamp (Attempt.ok ts); harness c03 op cli.exch
+  (2, "if c.Filter == nil"),  -- ClientNtp.returnedOffset: match filter | none
+  (3, "offset = off"),  -- ClientNtp.returnedOffset: a.offset
+  (2, "else"),  -- ClientNtp.returnedOffset: | some f
+  (3, "offset = c.Filter.Do(t0, t1, t2, t3)"),  -- ClientNtp.returnedOffset: f a.t0 a.t1 a.t2 a.t3; f = Filters.luckyDo / Filters.ntimedDo (filter state advances)
+  (2, "if c.Histogram != nil"),  -- UNMODELLED: c.Histogram is in no Cfg; branch after prev update and Filter.Do that can still fail an accepted response
+  (3, "err := c.Histogram.RecordValue(rtd.Microseconds())"),  -- env: hdrhistogram library call (observability; only benchmark tools set it); its error is no model input, see next rows
+  (3, "if err != nil"),  -- UNMODELLED: branch on the error of Histogram.RecordValue (rtd in us outside the histogram's range); no model input
+  (4, "return time.Time{}, 0, err"),  -- UNMODELLED: returns an error AFTER prev was updated and Filter.Do consumed the sample; exchangeIP says error => prev unchanged
+  (2, "break"),  -- ClientNtp.runLoop: | .accept a => .accepted a (n + 1) (loop ends, nothing further is read)
+  (1, "return timestamp, offset, nil")  -- ClientNtp.exchangeIP: (.accepted a _, updatePrev ...); value = Attempt.ok a.cRx (returnedOffset filter a) inIL in wrapLoop
   ]
 
 /-- core/client, SCIONClient.measureClockOffsetSCION -/
@@ -468,24 +468,24 @@ def Client.SCIONClient_measureClockOffsetSCION : List Row := [
 
 /-- core/client, MeasureClockOffsetIP -/
 def Client.MeasureClockOffsetIP : List Row := [
-  (0, "func MeasureClockOffsetIP(ctx context.Context, log *slog.Logger, ntpc *IPClient, localAddr, remoteAddr *net.UDPAddr) ( ts time.Time, off time.Duration, err error)"),  -- ?
-  (1, "mtrcs := ipMetrics.Load()"),  -- ?
-  (1, "var nerr, n int"),  -- ?
-  (1, "if ntpc.InterleavedMode"),  -- ?
-  (2, "n = 3"),  -- ?
-  (1, "else"),  -- ?
-  (2, "n = 1"),  -- ?
-  (1, "for i := range n"),  -- ?
-  (2, "t, o, e := ntpc.measureClockOffsetIP(ctx, mtrcs, localAddr, remoteAddr)"),  -- ?
-  (2, "if e == nil"),  -- ?
-  (3, "ts, off, err = t, o, e"),  -- ?
-  (3, "if ntpc.InInterleavedMode()"),  -- ?
-  (4, "break"),  -- ?
-  (2, "else"),  -- ?
-  (3, "if nerr == i"),  -- ?
-  (4, "err = e"),  -- ?
-  (3, "nerr++"),  -- ?
-  (1, "return")  -- ?
+  (0, "func MeasureClockOffsetIP(ctx context.Context, log *slog.Logger, ntpc *IPClient, localAddr, remoteAddr *net.UDPAddr) ( ts time.Time, off time.Duration, err error)"),  -- ClientNtp.wrapIP: the up-to-3-attempts wrapper (C05_wrapper_ip_sound); harness c03 op cli.wrap
+  (1, "mtrcs := ipMetrics.Load()"),  -- env: metrics handle (counters dropped from the skeleton)
+  (1, "var nerr, n int"),  -- ClientNtp.wrapIP: WrapState 0 0 none 0 (zero named results ts, off, err; nerr = 0); n = length of attempts.take ...
+  (1, "if ntpc.InterleavedMode"),  -- ClientNtp.wrapIP: if interleavedMode
+  (2, "n = 3"),  -- ClientNtp.wrapIP: attempts.take 3
+  (1, "else"),  -- ClientNtp.wrapIP: else
+  (2, "n = 1"),  -- ClientNtp.wrapIP: attempts.take 1
+  (1, "for i := range n"),  -- ClientNtp.wrapLoop: recursion over the attempts actually made, i = loop index
+  (2, "t, o, e := ntpc.measureClockOffsetIP(ctx, mtrcs, localAddr, remoteAddr)"),  -- ClientNtp.Attempt: result of one call (input of wrapLoop; one call = ClientNtp.entry then ClientNtp.exchangeIP)
+  (2, "if e == nil"),  -- ClientNtp.wrapLoop: | .ok t o inIL :: rest
+  (3, "ts, off, err = t, o, e"),  -- ClientNtp.wrapLoop: s' := { s with ts := t, off := o, err := none }
+  (3, "if ntpc.InInterleavedMode()"),  -- ClientNtp.inInterleavedMode: interleavedMode && prev.reference != "" && prev.interleaved; enters wrapLoop as Attempt.ok inIL
+  (4, "break"),  -- ClientNtp.wrapLoop: if inIL then s' (no further attempt)
+  (2, "else"),  -- ClientNtp.wrapLoop: | .err e :: rest
+  (3, "if nerr == i"),  -- ClientNtp.wrapLoop: if s.nerr = i (only while every attempt so far failed)
+  (4, "err = e"),  -- ClientNtp.wrapLoop: err := some e
+  (3, "nerr++"),  -- ClientNtp.wrapLoop: nerr := s.nerr + 1
+  (1, "return")  -- ClientNtp.wrapLoop: | _, s, [] => s (named results returned)
   ]
 
 /-- core/client, MeasureClockOffsetSCION -/
